@@ -332,8 +332,14 @@ var simPinRand uint64
 //go:linkname simSetPinRand runtime.simSetPinRand
 func simSetPinRand(v uint64) { simPinRand = v }
 
+var simPinCount uint64
+
+//go:linkname simGetPinCount runtime.simGetPinCount
+func simGetPinCount() uint64 { return simPinCount }
+
 //go:nosplit
 func simNextRand() uint64 {
+	simPinCount++
 	x := simPinRand
 	x ^= x << 13
 	x ^= x >> 7
